@@ -98,3 +98,79 @@ func VH_C14_run(family, locCfg int) {
 	}
 	vreach("end")
 }
+
+// ---- libraries ------------------------------------------------------------------------
+//
+// An action names its libraries; the names are resolved through the control of the location
+// the action runs in, at the time it runs. Here the real CompileJavascript body runs
+// (library lookup, concatenation); otto's parser and evaluator are the model of §3.4.
+
+const (
+	vhLibGood   = `function verdict(n) { return "good:" + n; }`
+	vhLibBroken = `function verdict(n) { return "bad:" + ; } // @@syntax-error@@`
+	vhLibThrows = `throw "no verdicts today"; // @@lib-throws@@`
+)
+
+func vhC14LibLoc(name string, kind int, lib string) (*Context, *Location) {
+	ctx := NewContext("c14" + name)
+	store, err := NewMemStorage(ctx)
+	vassume(err == nil)
+	st := vhNewState(ctx, kind, name, store)
+	loc, err := NewLocation(ctx, name, st, nil)
+	vassume(err == nil)
+	c := DefaultControl()
+	c.Libraries = map[string]string{"checks": lib}
+	loc.SetControl(c)
+	_, err = loc.AddRule(ctx, "r", Map{
+		"when":   map[string]interface{}{"pattern": map[string]interface{}{"ping": "?n"}},
+		"action": map[string]interface{}{"code": "1", "opts": map[string]interface{}{"libraries": []interface{}{"checks"}}},
+	})
+	vassume(err == nil)
+	return ctx, loc
+}
+
+// vhC14LibRun sends the event and says whether the rule's one action completed.
+func vhC14LibRun(ctx *Context, loc *Location) (complete bool, found bool) {
+	fr, _ := loc.ProcessEvent(ctx, Map{"ping": "1"})
+	if fr == nil || len(fr.Children) != 1 || len(fr.Children[0].Children) != 1 || len(fr.Children[0].Children[0].Children) != 1 {
+		return false, false
+	}
+	return fr.Children[0].Children[0].Children[0].Disposition == Complete, true
+}
+
+// VH_C14_libs: variant 0/1: location A has a working library, location B a library of the
+// same name that does not compile (0) or throws when loaded (1); the same action text runs
+// in A, then in B. Variant 2/3: one location whose library is replaced by a broken (2) or
+// throwing (3) one between two events. Variant 4: B (broken) first, then A. The action in
+// the location with the bad library is an error on its node, the other one completes.
+func VH_C14_libs(kind, variant int) {
+	bad := vhLibBroken
+	if variant == 1 || variant == 3 {
+		bad = vhLibThrows
+	}
+	switch variant {
+	case 0, 1, 4:
+		ctxA, locA := vhC14LibLoc("la", kind, vhLibGood)
+		ctxB, locB := vhC14LibLoc("lb", kind, bad)
+		if variant == 4 {
+			okB, found := vhC14LibRun(ctxB, locB)
+			vassert(found && !okB, "failing-script-is-an-error-on-its-node")
+		}
+		okA, found := vhC14LibRun(ctxA, locA)
+		vassert(found && okA, "script-within-limit-unaffected")
+		if variant != 4 {
+			okB, found := vhC14LibRun(ctxB, locB)
+			vassert(found && !okB, "failing-script-is-an-error-on-its-node")
+		}
+	case 2, 3:
+		ctx, loc := vhC14LibLoc("la", kind, vhLibGood)
+		ok, found := vhC14LibRun(ctx, loc)
+		vassert(found && ok, "script-within-limit-unaffected")
+		c := DefaultControl()
+		c.Libraries = map[string]string{"checks": bad}
+		loc.SetControl(c)
+		ok, found = vhC14LibRun(ctx, loc)
+		vassert(found && !ok, "failing-script-is-an-error-on-its-node")
+	}
+	vreach("end")
+}
